@@ -254,7 +254,7 @@ pub fn build_volume_inner(tape: &mut Tape, max_records: usize, opts: &StreamOpts
     };
     let mut v = Volume::default();
     v.bytes = icd::volume_header(
-        ["2", "3", "6", "7"][tape.draw(4) as usize],
+        ["2", "3", "4", "5", "6", "7"][tape.draw(6) as usize],
         1 + tape.draw(999) as u16,
         1 + tape.draw(30000) as u32,
         tape.draw(86_400_000) as u32,
